@@ -483,6 +483,10 @@ func gen(t *rapid.T) Case {
 		} else {
 			name = fmt.Sprintf("m%d", i)
 		}
+		if (c.Via == "api" || c.Via == "api-continued") && rapid.IntRange(0, 7).Draw(t, "empty-name") == 0 {
+			// Set takes any string for a name, the empty one too (Name() answers "" for it as for no member at all)
+			name = ""
+		}
 		m := numref.Member{Name: name}
 		switch rapid.IntRange(0, 9).Draw(t, "shape") {
 		case 0, 1, 2, 3:
